@@ -14,10 +14,15 @@ STRENGTHENED = {"C02-a": "discount domain extended beyond 200 %", "C03-b": "caug
                 "C29-s": "monitor AdjBand on every adjusted price",
                 "C08-r2": "fee-spill scenarios (fees partly paid from the secondary output) + per-event dust bound",
                 "C04-r2": "swap-fee discount factor added to the configuration domain",
+                "C36-r2": "delays above 30 days and near u32::MAX in both C36 bindings",
                 "C15-s": "SDK pool view bound at the u128 limits",
                 "C40-a": "closed-market parameter combinations in the compared views",
                 "C40-b": "program vs SDK discount compared on non-round factors (also caught by C31)",
                 "C42-a": "precise transcription of the search: known findings suppress only design-conforming failures"}
+NOT_A_VIOLATION = {
+    "C18-r2": "not caught and not a violation of the statement: revoke on a disabled role now FAILS without side effects, so 'granted and not revoked since' still describes who holds the role; reported as 682 drift events on revoke (the precise Roles.tla lets that revoke succeed)",
+    "C19-r2": "cannot manifest in the default build: it needs a second store, which only exists with the cargo feature multi-store (the seeder says so); the checks build the default feature set",
+}
 OTHER_PROP = {"C03-b": "C05", "C40-b": "C31"}
 for d in sorted(glob.glob(V + '/seeded/C*')):
     sid = os.path.basename(d)
@@ -41,6 +46,8 @@ for d in sorted(glob.glob(V + '/seeded/C*')):
     if sid == "C40-b" and "C31" not in caught_by:
         caught_by.append("C31")
     res = "missed"
+    if sid in NOT_A_VIOLATION and not caught_by:
+        res = NOT_A_VIOLATION[sid]
     if caught_by:
         res = "caught by " + ",".join(caught_by)
         if sid in STRENGTHENED:
